@@ -632,6 +632,8 @@ class Exec:
         self.fn_stack = []
         self.fuel = self.FUEL
         self.merger = Merger()
+        self.max_tokens = None             # bound on symbolic token iteration (recorded in .bounded when hit)
+        self.bounded = []
 
     # ---- helpers ---------------------------------------------------------------------------
     def cfg(self, key):
@@ -1068,6 +1070,8 @@ class Exec:
 
     def structural_eq(self, a, b):
         """Field-wise equality (contract of derived PartialEq / primitive ==)."""
+        if a is b and a[0] != 'c' or (a is b and ty_of(a) not in ('f32', 'f64')):
+            return TRUE
         if a[0] == 'ite':
             return mk_ite(a[1], self.structural_eq(a[2], b), self.structural_eq(a[3], b))
         if b[0] == 'ite':
